@@ -315,6 +315,8 @@ def run(ctx: RuleContext, p: Program) -> None:
     from .c04 import rule_take_ignored
     ctx.try_rule(rule_take_ignored, p, 'TAKE-IGNORED')
     ctx.try_rule(rule_claim_walk, p, 'CLAIM-WALK')
+    from . import claimorder
+    ctx.try_rule(claimorder.rule_splice_order, p, 'SPLICE-ORDER')
     ctx.not_decided += ['attribution rules for each layout (blank lines, indentation classes)', 'idempotence and '
                         'claim/unclaim restoration as runtime facts', 'that default parsing leaves no comment unowned']
     ctx.assumptions += ['a comment is owned iff it is stored in a _leading/_trailing slot or in Repeated.items']
